@@ -92,11 +92,12 @@ CurlET(g, i) == LET c == Comp(g.N, i)  p == Pos(g.N, i)
 \* ---------------------------------------------------------------- walls (apply_post_E_update / apply_post_H_update)
 OnFace(g, p, a, side) == IF side = 1 THEN p[a] = 0 ELSE p[a] = g.N[a] - 1
 \* component i is zeroed by a wall of the given kind: tangential components on the one-cell face layer
-Zeroed(g, walls, i) ==
+\* (the wall CONDITION is always the tangential one; `step` = what the projection step zeroes, wrong under "pec_normal")
+Zeroed(g, walls, i, step) ==
     LET c == Comp(g.N, i)  p == Pos(g.N, i) IN
     \E a \in 1..3 : \E side \in 1..2 :
         /\ walls[a][side] /\ OnFace(g, p, a, side)
-        /\ IF g.variant = "pec_normal" THEN c = a ELSE c # a
+        /\ IF step /\ g.variant = "pec_normal" THEN c = a ELSE c # a
 
 \* ---------------------------------------------------------------- lossy factors
 Lossy(g) == \E i \in 1..NF(g.N) : g.loss[i] = 1
@@ -118,8 +119,10 @@ Compile(g) ==
     [ N |-> g.N, n |-> n, src |-> g.src, variant |-> g.variant, ie2 |-> TLCEval(g.ie2), im2 |-> TLCEval(g.im2),
       stH |-> TLCEval([ i \in 1..n |-> CurlHT(g, i) ]),          \* curl_H stencil of entry i (acts on H)
       stE |-> TLCEval([ i \in 1..n |-> CurlET(g, i) ]),          \* curl_E stencil of entry i (acts on E)
-      zE  |-> TLCEval([ i \in 1..n |-> Zeroed(g, g.pec, i) ]),
-      zH  |-> TLCEval([ i \in 1..n |-> Zeroed(g, g.pmc, i) ]),
+      zE  |-> TLCEval([ i \in 1..n |-> Zeroed(g, g.pec, i, FALSE) ]),    \* wall conditions
+      zH  |-> TLCEval([ i \in 1..n |-> Zeroed(g, g.pmc, i, FALSE) ]),
+      zEs |-> TLCEval([ i \in 1..n |-> Zeroed(g, g.pec, i, TRUE) ]),     \* what the projection steps zero
+      zHs |-> TLCEval([ i \in 1..n |-> Zeroed(g, g.pmc, i, TRUE) ]),
       an  |-> TLCEval([ i \in 1..n |-> ANr(g, i) ]), bn |-> TLCEval([ i \in 1..n |-> BNr(g, i) ]),
       lossy |-> TLCEval([ i \in 1..n |-> Lossy(g) /\ g.loss[i] = 1 ]),
       we  |-> TLCEval([ i \in 1..n |-> WE4(g, i) * (4 \div g.ie2[i]) ]),     \* 8 * weight * eps
@@ -133,8 +136,8 @@ RECURSIVE SumTerms(_, _, _)
 SumTerms(F, T, k) == IF k = 0 THEN GZ ELSE GAdd(TermVal(F, T[k]), SumTerms(F, T, k - 1))
 CurlH(g, F, i) == SumTerms(F, g.stH[i], Len(g.stH[i]))
 CurlE(g, F, i) == SumTerms(F, g.stE[i], Len(g.stE[i]))
-WallE(g, F) == [ i \in 1..g.n |-> IF g.zE[i] THEN GZ ELSE F[i] ]
-WallH(g, F) == [ i \in 1..g.n |-> IF g.zH[i] THEN GZ ELSE F[i] ]
+WallE(g, F) == [ i \in 1..g.n |-> IF g.zEs[i] THEN GZ ELSE F[i] ]
+WallH(g, F) == [ i \in 1..g.n |-> IF g.zHs[i] THEN GZ ELSE F[i] ]
 WallOK(g, s) == /\ \A i \in 1..g.n : g.zE[i] => s.E[i] = GZ
                 /\ \A i \in 1..g.n : g.zH[i] => s.H[i] = GZ
 
